@@ -197,7 +197,9 @@ def main(ck):
       # ---------------- discrete inverse
       # (only for converged runs: the integrators advance with M^-1-free formulas built on qfrc_constraint, so for an
       #  unconverged qacc the finite-differenced acceleration corresponds to a different point of the cost)
-      if (solver == NEWTON or rng.randint(2)) and not unconv:
+      if nefc and bound_rep > 10 * EPS * sn:
+        labels.add(names[solver] + ':discrete-skipped(residual above rounding)')
+      elif (solver == NEWTON or rng.randint(2)) and not unconv:
         m.opt.enableflags = base_en | E.mjENBL_FWDINV
         d3 = lib.copy_data(m, d0)
         lib.mj_step(m, d3)
